@@ -238,6 +238,29 @@ func registerSDK(e *Engine) {
 		return VCtx{MS: a[0], Time: time_(a[1]), Height: tInt(a[2]), CheckTx: tBool(a[3]), ReCheck: tFalse, Valid: true}
 	}
 	in[C+"BlockTime"] = func(p *Path, a []Value) Value { return ctxOf(a[0]).Time }
+	in[C+"BlockHeader"] = func(p *Path, a []Value) Value {
+		c := ctxOf(a[0])
+		pk := p.eng.ssaPkg("github.com/cometbft/cometbft/proto/tendermint/types")
+		if pk == nil {
+			panic(engErr("tendermint types package not loaded"))
+		}
+		ht := pk.Type("Header").Type()
+		st := ht.Underlying().(*types.Struct)
+		hv := zeroValue(ht).(*VStruct)
+		fs := make([]Value, len(hv.F))
+		copy(fs, hv.F)
+		for i := 0; i < st.NumFields(); i++ {
+			switch st.Field(i).Name() {
+			case "Time":
+				fs[i] = c.Time
+			case "Height":
+				fs[i] = VInt{c.Height}
+			case "ChainID":
+				fs[i] = VStr{StrC("und-verif")}
+			}
+		}
+		return &VStruct{F: fs}
+	}
 	in[C+"BlockHeight"] = func(p *Path, a []Value) Value { return VInt{ctxOf(a[0]).Height} }
 	in[C+"IsCheckTx"] = func(p *Path, a []Value) Value { return VBool{ctxOf(a[0]).CheckTx} }
 	in[C+"IsReCheckTx"] = func(p *Path, a []Value) Value { return VBool{ctxOf(a[0]).ReCheck} }
